@@ -23,7 +23,7 @@ def decode(p):
 
 
 SPEC = dict(
-    lean_modules=["Ecal.Props.C14"],
+    lean_modules=["Ecal.Props.C14", "Ecal.Props.C14Lex"],
     shards=8,
     rule=("cases = one-literal programs: every sequence of <=3 (quick) / <=4 (thorough) atoms from "
           "{'{{','}}','{','}','\\\"',\"'\",'\\n',a..f (variables holding marker-laden text, one self-reproducing), "
